@@ -23,6 +23,7 @@ func init() {
 // call is one element of the call alphabet.
 type call struct {
 	failHandler bool // the handler answers this call with a plain error
+	useMock     bool // the handler is the emitted mock implementation of the service
 	name        string
 	svc         string
 	method      *JobMethod
@@ -55,12 +56,14 @@ type world struct {
 	seen    map[int]string
 	rpc     map[int]string
 	fail    map[int]bool // thread -> the handler fails this call
+	useMock map[int]bool // thread -> this call is answered by the emitted mock server
+	mocks   map[string]Handler
 }
 
 var c17HeadersOfInterest = []string{"Content-Type", "X-Verif-Call", "X-Tenant", "X-Trace", "X-Beta", "X-Api-Key", "X-Request-Id"}
 
 func newWorld(u *JobUnit) (*world, error) {
-	w := &world{clients: map[string]Client{}, byTh: map[int]*Exchange{}, seen: map[int]string{}, rpc: map[int]string{}, fail: map[int]bool{}}
+	w := &world{clients: map[string]Client{}, byTh: map[int]*Exchange{}, seen: map[int]string{}, rpc: map[int]string{}, fail: map[int]bool{}, useMock: map[int]bool{}, mocks: map[string]Handler{}}
 	// a selective error hook, as the ErrorHandler documentation allows: validation failures get a status of the hook's choosing
 	// (no body written, no message returned), every other error is left to the defaults
 	hook := func(rw http.ResponseWriter, r *http.Request, err error) proto.Message {
@@ -95,6 +98,9 @@ func newWorld(u *JobUnit) (*world, error) {
 			}
 		}
 		w.clients[js.Name] = svc.NewClient("http://verif.test", hc, ClientOpts{DefaultHeaders: defaults})
+		if svc.NewMock != nil {
+			w.mocks[js.Name] = svc.NewMock()
+		}
 	}
 	return w, nil
 }
@@ -104,6 +110,7 @@ func (w *world) do(u *JobUnit, c *call, slot int) obs {
 	th := vsched.Current()
 	delete(w.byTh, th)
 	w.fail[th] = c.failHandler
+	w.useMock[th] = c.useMock
 	if c.viaRaw {
 		target, body := RenderRequest(c.method, c.req)
 		hdr := http.Header{"Content-Type": {"application/json"}}
@@ -176,6 +183,10 @@ func c17Alphabet(u *JobUnit) ([]*call, error) {
 			out = append(out, &call{name: fmt.Sprintf("%s.%s/plain", js.Name, m.Name), svc: js.Name, method: m, req: valid, opts: CallOpts{Headers: methHdr}})
 			if mi == 0 {
 				out = append(out, &call{name: fmt.Sprintf("%s.%s/handler-error", js.Name, m.Name), svc: js.Name, method: m, req: valid, opts: CallOpts{Headers: methHdr}, failHandler: true})
+				if svc := FindService(u.Name, js.Name); svc != nil && svc.NewMock != nil {
+					// answered by the emitted mock implementation (its shared state: example tables, random source)
+					out = append(out, &call{name: fmt.Sprintf("%s.%s/mock", js.Name, m.Name), svc: js.Name, method: m, req: valid, opts: CallOpts{Headers: methHdr}, useMock: true})
+				}
 			}
 			out = append(out, &call{name: fmt.Sprintf("%s.%s/percall-header+proto", js.Name, m.Name), svc: js.Name, method: m, req: valid,
 				opts: CallOpts{ContentType: "application/x-protobuf", Headers: append(append([]KV(nil), methHdr...), KV{"X-Verif-Call", fmt.Sprintf("c%d", n)})}})
@@ -249,6 +260,11 @@ func c17Unit(j *Job, u *JobUnit) error {
 			w.rpc[th] = method
 			if w.fail[th] {
 				return nil, fmt.Errorf("handler failed for %s", method)
+			}
+			if w.useMock[th] {
+				if mock := w.mocks[strings.SplitN(method, ".", 2)[0]]; mock != nil {
+					return mock(ctx, method, req)
+				}
 			}
 			// response: the default message of the output type (content does not matter, identity of the call does)
 			for _, js := range u.Services {
